@@ -295,13 +295,14 @@ def leak_signature(exc, text=''):
         # messages and in the error context: one cause (no length check on
         # integer literals), whatever the place
         return 'leak:ValueError:integer-literal-over-4300-digits'
-    if isinstance(exc, AttributeError) and \
-            "has no attribute 'lower'" in str(exc) and \
-            'embeddedinstance' in text.lower():
+    if isinstance(exc, AttributeError) and name != 'find_mof' and \
+            re.match(r"'(int|float|bool)' object has no attribute 'lower'",
+                     str(exc)) and 'embeddedinstance' in text.lower():
         # EmbeddedInstance(<not a string>) is accepted by p_qualifier and
         # used as a class name in several places
         return 'leak:AttributeError:non-string-EmbeddedInstance-value'
-    if name == 'compile_embedded_value':
+    if name == 'compile_embedded_value' and \
+            isinstance(exc, (TypeError, AttributeError, RuntimeError)):
         after = frames[frames.index(inner_mof) + 1:]
         if any(os.path.basename(f.filename) == 'lex.py' for f in after):
             # PLY's lexer choking on a value that is not a string: one cause
@@ -442,7 +443,9 @@ def check_position(ctx, exc, candidates, text_for_detail, only_file=None):
                          'token starts at index %d, pointer at %d' %
                          (tcol0, p0))
     if col != p0 + 1 and not bad:
-        fail('column-minus-pointer-index-is-%d-documented-1' % (col - p0),
+        delta = col - p0
+        fail('column-minus-pointer-index-is-%d-documented-1' % delta
+             if -2 <= delta <= 2 else 'column-far-from-pointer',
              'pointer starts at index %d (0-based), column is %d' %
              (p0, col))
         return 'pos:bad'
@@ -1513,6 +1516,11 @@ def repofault_oracle(ctx, ex):
         if fired and not isinstance(exc, CIMError):
             # which status code sent the compiler down the failing path
             sig += ':after-CIMError-%d' % fired[-1][2]
+        elif fired:
+            # which call's error escaped, and how many injected errors the
+            # compiler had handled before
+            sig += ':from-%s-after-%d-handled-faults' % (
+                fired[-1][0], len(fired) - 1)
         ctx.fail(sig, _detail(exc, text) + '\nfired: %r' % (fired,))
     elif kind == 'timeout':
         ctx.fail('nontermination:repofault', repr(ex))
